@@ -142,7 +142,8 @@ pub enum CallKind {
     AdvanceApply(u64),
     Propose { len: usize },
     ProposeConf(CcSpec),
-    ApplyConf,
+    /// ids that the change removes and adds again (their Progress is re-created)
+    ApplyConf(Vec<u64>),
     ReadIndex(Vec<u8>),
     Transfer(u64),
     Campaign,
@@ -170,7 +171,7 @@ impl CallKind {
             CallKind::AdvanceApply(_) => "advance_apply_to",
             CallKind::Propose { .. } => "propose",
             CallKind::ProposeConf(_) => "propose_conf_change",
-            CallKind::ApplyConf => "apply_conf_change",
+            CallKind::ApplyConf(_) => "apply_conf_change",
             CallKind::ReadIndex(_) => "read_index",
             CallKind::Transfer(_) => "transfer_leader",
             CallKind::Campaign => "campaign",
@@ -488,7 +489,7 @@ impl World {
                         CallKind::Step(m) => format!(" [{}]", msg_brief(m)),
                         CallKind::OnPersist(n) => format!(" ({})", n),
                         CallKind::AdvanceApply(n) => format!(" ({})", n),
-                        CallKind::ApplyConf => format!(" conf={:?}", post.conf),
+                        CallKind::ApplyConf(_) => format!(" conf={:?}", post.conf),
                         _ => String::new(),
                     };
                     t.push(format!(
@@ -714,8 +715,38 @@ impl World {
             }
             self.mon.on_apply(ni, &e, applied_before, &self.nodes, self.op_index);
             let mut new_conf: Option<ConfState> = None;
+            // the node's raft may already have restored a snapshot at or beyond this entry (stepped MsgSnapshot
+            // whose Ready the application has not reached yet): the entry is stale for the restored configuration
+            let stale_conf_before: Option<ConfView> = self.nodes[ni].rn.as_ref().and_then(|rn| {
+                if rn.raft.raft_log.first_index() > e.index {
+                    Some(ConfView::from_cs(&rn.raft.prs().conf().to_conf_state()))
+                } else {
+                    None
+                }
+            });
             if let Some(cc) = Self::decode_cc(&e) {
-                let r = self.call(ni, CallKind::ApplyConf, |rn| rn.apply_conf_change(&cc));
+                // (only if the change is going to be accepted: a rejected change touches nothing)
+                let accepted = self.nodes[ni].rn.as_ref().map_or(false, |rn| {
+                    set_guard(true);
+                    let r = std::panic::catch_unwind(std::panic::AssertUnwindSafe(|| rn.clone().apply_conf_change(&cc).is_ok())).unwrap_or(false);
+                    set_guard(false);
+                    r
+                });
+                let recreated: Vec<u64> = if !accepted {
+                    vec![]
+                } else {
+                    let ch = cc.get_changes();
+                    let mut v = vec![];
+                    for (k, c) in ch.iter().enumerate() {
+                        if c.get_change_type() == ConfChangeType::RemoveNode
+                            && ch[k + 1..].iter().any(|d| d.node_id == c.node_id && d.get_change_type() != ConfChangeType::RemoveNode)
+                        {
+                            v.push(c.node_id);
+                        }
+                    }
+                    v
+                };
+                let r = self.call(ni, CallKind::ApplyConf(recreated), |rn| rn.apply_conf_change(&cc));
                 match r {
                     Some(Ok(cs)) => {
                         self.stats.conf_applied += 1;
@@ -746,7 +777,7 @@ impl World {
                     }
                 }
             }
-            self.mon.after_apply(ni, &e, new_conf.as_ref(), &self.nodes, self.op_index);
+            self.mon.after_apply(ni, &e, new_conf.as_ref(), stale_conf_before.as_ref(), &self.nodes, self.op_index);
             done += 1;
             // the application destroys a peer that applied its own removal
             if let Some(cs) = &new_conf {
